@@ -10,7 +10,7 @@ COMMON_TRUST = [
 PROPS = {
     'C02': dict(
         units=['encode', 'decode', 'status', 'reqresp', 'metadata'], level='proof',
-        witness=[dict(append_to='tonic/src/status.rs', module='replay/status_witness.rs', crate='tonic', filter='verif_witness_status', features=['--features', 'gzip,deflate,zstd'])],
+        witness=[dict(append_to='tonic/src/status.rs', module='replay/status_witness.rs', crate='tonic', filter='verif_witness_status', features=['--features', 'gzip,deflate,zstd']), dict(append_to='tonic/src/codec/decode.rs', module='replay/decode_witness.rs', crate='tonic', filter='verif_witness_decode', features=['--features', 'gzip,deflate,zstd'])],
         not_covered=[
             'PARTIAL: decided here is the hand-off of status / trailers / metadata at both ends - server: EncodeBody turns the handler status (or OK) into exactly one trailers block written(st) after every message frame (enc_step); client: Streaming yields the buffered messages first (N1), then the status read from the trailers (response: read(trailers, st)), exactly once (F3); Status write/read round trip (lemma_status_roundtrip); Request/Response head construction',
             'NOT covered: the async glue of server::Grpc::{unary,server_streaming,client_streaming,streaming,map_request_*,map_response} and client::Grpc::{unary,client_streaming,server_streaming,streaming,create_response} (accepted by this Verus in probes, not built in this round)',
@@ -25,11 +25,11 @@ PROPS = {
             'CORS handling and the GrpcWebLayer wiring',
         ]),
     'C17': dict(
-        units=['webclient'], level='proof',
+        units=['webclient', 'webserver'], level='proof',
         witness=[dict(append_to='tonic-web/src/call.rs', module='replay/web_client_chunking.rs', crate='tonic-web', filter='verif_witness_web_client')],
         not_covered=[
             'decode_trailers_frame (the HTTP/1 header-block parser: iterator adapters, HeaderName/HeaderValue::try_from, HeaderMap::append) is out of reach of both verifiers: that every name keeps its full value (colons, repeated names) is NOT decided here; a native witness test (replay/web_client_chunking.rs) exercises it when a violation is reported',
-            'poll_decode (binary mode: forwards inner frames with copied bytes) is linked as an assumed contract A-tonic-web-02',
+            'poll_decode (binary mode) is linked in unit webclient as a callee contract and proved in unit webserver (N1/N2) over a general, possibly non-contiguous bytes::Buf (A-bytes-29)',
             'GrpcWebClientService::call / ResponseFuture (content-type coercion of the client layer)',
         ]),
     'C14': dict(
